@@ -1031,6 +1031,11 @@ def run_coq(ctx, groups, tag=""):
 # The run
 # ==========================================================================================
 
+def viol(ctx, key, what, rep):
+    """Register a violation; the replay dict is tagged so that c04.py / c05.py route it back here."""
+    ctx.violation(key, what, dict(rep, part=PART, codec="dns"))
+
+
 def load_corpus(pid):
     import common
     d = os.path.join(common.CORPUS, pid)
@@ -1226,7 +1231,7 @@ def run_part(ctx):
 
     results, why = run_worker(jobs)
     if results is None:
-        ctx.violation("C04:dns:decoder-hangs", "the implementation driver did not finish: " + why,
+        viol(ctx, "C04:dns:decoder-hangs", "the implementation driver did not finish: " + why,
                       {"part": PART, "kind": "driver", "detail": why})
         return
     ctx.traces += len(jobs)
@@ -1237,7 +1242,7 @@ def run_part(ctx):
         verdicts = judge(c, rs)
         for key, what in verdicts:
             rep = {k: v for k, v in c.items() if k not in ("corpus",)}
-            ctx.violation(key, what + (" [corpus %s]" % c["corpus"] if "corpus" in c else ""), rep)
+            viol(ctx, key, what + (" [corpus %s]" % c["corpus"] if "corpus" in c else ""), rep)
         nontriv = "ok" in rs[0] and (c.get("pointers", 1) > 0 or c["kind"] != "decode")
         canon = (c["kind"], c.get("data") or json.dumps(c.get("msg") or c.get("labels") or c.get("name"), sort_keys=True))
         sample = None
@@ -1249,13 +1254,13 @@ def run_part(ctx):
             ctx.count("dns:with-pointer-chain")
     for (kind, d), r in zip(hostile, results[base_hostile:base_hn]):
         if "hang" in r:
-            ctx.violation("C04:dns:decoder-hangs", "unpack did not return within %.0f s on a %d byte message (%s)" % (CALL_TIMEOUT, len(d), kind),
+            viol(ctx, "C04:dns:decoder-hangs", "unpack did not return within %.0f s on a %d byte message (%s)" % (CALL_TIMEOUT, len(d), kind),
                           {"part": PART, "kind": "finish", "op": "unpack", "data": d.hex()})
         ctx.case(("hostile", d), nontrivial=True)
         ctx.count("dns:hostile:" + kind + ":" + (outcome(r)))
     for (kind, d, p), r in zip(hnames, results[base_hn:]):
         if "hang" in r:
-            ctx.violation("C04:dns:decoder-hangs", "parse_domain_name did not return within %.0f s (%s)" % (CALL_TIMEOUT, kind),
+            viol(ctx, "C04:dns:decoder-hangs", "parse_domain_name did not return within %.0f s (%s)" % (CALL_TIMEOUT, kind),
                           {"part": PART, "kind": "finish", "op": "name", "data": d.hex(), "pos": p})
         ctx.case(("hostile-name", d, p), nontrivial=True)
         ctx.count("dns:hostile-name:" + (outcome(r)))
@@ -1388,7 +1393,7 @@ def run_part_c05(ctx):
     jobs += [{"op": "unpack", "data": d.hex(), "count": True} for _, d in hm]
     results, why = run_worker(jobs)
     if results is None:
-        ctx.violation("C05:dns:decoder-hangs", "the implementation driver did not finish: " + why,
+        viol(ctx, "C05:dns:decoder-hangs", "the implementation driver did not finish: " + why,
                       {"part": PART, "kind": "driver", "detail": why})
         return
     ctx.traces += len(jobs)
@@ -1401,7 +1406,7 @@ def run_part_c05(ctx):
 
     for c, r in zip(checks, results[:base]):
         for key, what in judge(c, [r]):
-            ctx.violation(key, what + " [corpus %s]" % c["corpus"], {k: v for k, v in c.items() if k != "corpus"})
+            viol(ctx, key, what + " [corpus %s]" % c["corpus"], {k: v for k, v in c.items() if k != "corpus"})
         ctx.case(("corpus", c["corpus"]), nontrivial=True)
         ctx.count("dns:corpus")
         if c["kind"] == "finish" and c["op"] == "name":
@@ -1409,30 +1414,30 @@ def run_part_c05(ctx):
     for (kind, d, p), r in zip(hn, results[base:basem]):
         rep = {"part": PART, "kind": "finish", "op": "name", "data": d.hex(), "pos": p, "c05": True}
         if "hang" in r:
-            ctx.violation("C05:dns:pointer-loop", "parse_domain_name did not return within %.0f s on %d bytes (%s)" % (CALL_TIMEOUT, len(d), kind), rep)
+            viol(ctx, "C05:dns:pointer-loop", "parse_domain_name did not return within %.0f s on %d bytes (%s)" % (CALL_TIMEOUT, len(d), kind), rep)
         elif "skipped" in r:
             pass
         elif r.get("err", "").startswith("Other"):
-            ctx.violation("C05:dns:unexpected-exception", "parse_domain_name raised " + r.get("exc", ""), rep)
+            viol(ctx, "C05:dns:unexpected-exception", "parse_domain_name raised " + r.get("exc", ""), rep)
         else:
             bound = (len(d) + 1) ** 2
             if r["iters"] > bound:
-                ctx.violation("C05:dns:decoder-steps", "parse_domain_name made %d loop iterations on %d bytes (bound %d)" % (r["iters"], len(d), bound), rep)
+                viol(ctx, "C05:dns:decoder-steps", "parse_domain_name made %d loop iterations on %d bytes (bound %d)" % (r["iters"], len(d), bound), rep)
             add_name(d, p, r, rep)
         ctx.case(("c05-name", d, p), nontrivial=r.get("iters", 0) > 1)
         ctx.count("dns:name:" + kind.rstrip("0123456789") + ":" + (outcome(r)))
     for (kind, d), r in zip(hm, results[basem:]):
         rep = {"part": PART, "kind": "finish", "op": "unpack", "data": d.hex(), "c05": True}
         if "hang" in r:
-            ctx.violation("C05:dns:pointer-loop", "DnsMessage.unpack did not return within %.0f s on %d bytes (%s)" % (CALL_TIMEOUT, len(d), kind), rep)
+            viol(ctx, "C05:dns:pointer-loop", "DnsMessage.unpack did not return within %.0f s on %d bytes (%s)" % (CALL_TIMEOUT, len(d), kind), rep)
         elif "skipped" in r:
             pass
         elif r.get("err", "").startswith("Other") and "786e2d2d" not in d.hex():
-            ctx.violation("C05:dns:unexpected-exception", "DnsMessage.unpack raised " + r.get("exc", ""), rep)
+            viol(ctx, "C05:dns:unexpected-exception", "DnsMessage.unpack raised " + r.get("exc", ""), rep)
         else:
             bound = (len(d) + 1) ** 3
             if r.get("iters", 0) > bound:
-                ctx.violation("C05:dns:decoder-steps", "unpack made %d name-loop iterations on %d bytes (bound %d)" % (r["iters"], len(d), bound), rep)
+                viol(ctx, "C05:dns:decoder-steps", "unpack made %d name-loop iterations on %d bytes (bound %d)" % (r["iters"], len(d), bound), rep)
             x = coq_expect(r, canon_msg)
             if x and len(d) <= MAXLEN:
                 groups["check_unpack"][1].append(("(%s, %s)" % (coq_bytes(d), x), rep))
